@@ -164,9 +164,10 @@ func C20(c Ctx) *report.Report {
 		toks := []string{"cdash", "ceth", "cusdc"}[:1+rng.Intn(3)]
 		e := env.New(env.Opts{NUsers: 4, Tokens: toks})
 		e.BeginBlock()
-		// pools
+		// pools (sometimes none at first: the period then starts with zero total depth and pools appear later)
+		latePools := rng.Intn(4) == 0
 		for i, t := range toks {
-			if rng.Intn(6) == 0 && i > 0 {
+			if (rng.Intn(6) == 0 && i > 0) || latePools {
 				continue // token without pool
 			}
 			mustOK(e.CreatePool(e.Users[i%2], t, new(big.Int).Add(chain.E(18), RandAmount(rng, 30)), RandAmount(rng, 30)), "create pool")
@@ -184,6 +185,9 @@ func C20(c Ctx) *report.Report {
 		}
 		au := sdk.NewUintFromBigInt(alloc)
 		dflt := sdk.NewDecWithPrec(int64(rng.Intn(1001)), 2) // 0 .. 10.00
+		if rng.Intn(6) == 0 {
+			dflt = sdk.ZeroDec() // zero weight: total depth 0 unless a pool multiplier says otherwise
+		}
 		var mults []*clptypes.PoolMultiplier
 		for _, t := range toks {
 			if rng.Intn(3) == 0 {
@@ -203,6 +207,11 @@ func C20(c Ctx) *report.Report {
 		accuBefore := new(big.Int)
 		nBlocks := int(length) + 4
 		for b := 0; b < nBlocks; b++ {
+			if latePools && b == int(length)/2 {
+				for i, t := range toks {
+					e.CreatePool(e.Users[i%2], t, new(big.Int).Add(chain.E(18), RandAmount(rng, 30)), RandAmount(rng, 30))
+				}
+			}
 			// user traffic
 			for i := 0; i < rng.Intn(3); i++ {
 				u := e.Users[rng.Intn(len(e.Users))]
@@ -239,6 +248,23 @@ func C20(c Ctx) *report.Report {
 			bound := new(big.Int)
 			if inPeriod {
 				bound.Add(pre.Accu, perBlk)
+			}
+			// the carried-over entitlement follows the specification exactly: +alloc/len on a non-distribution
+			// block of the period, 0 after a distribution block, untouched outside the period
+			if inPeriod && alloc.Sign() != 0 {
+				md := period.RewardPeriodMod
+				if md == 0 {
+					md = 1
+				}
+				want := new(big.Int)
+				if (uint64(e.Height)-start)%md != 0 {
+					want.Add(pre.Accu, perBlk)
+				}
+				if post.Accu.Cmp(want) != 0 {
+					rep.Violate("C20/rewards/carry-over", fmt.Sprintf("height %d: carried-over entitlement is %s, specification says %s", e.Height, post.Accu, want), rep.CaseIndex[fmt.Sprint(caseID)])
+				}
+			} else if post.Accu.Cmp(pre.Accu) != 0 {
+				rep.Violate("C20/rewards/carry-over", fmt.Sprintf("height %d: entitlement changed outside a reward period: %s -> %s", e.Height, pre.Accu, post.Accu), rep.CaseIndex[fmt.Sprint(caseID)])
 			}
 			if created.Cmp(bound) > 0 {
 				rep.Violate("C20/rewards/block-bound", fmt.Sprintf("height %d created %s > accu %s + alloc/len %s", e.Height, created, pre.Accu, perBlk), rep.CaseIndex[fmt.Sprint(caseID)])
